@@ -16,7 +16,7 @@ PairsFor(tl, long) == {<<IF long THEN "--in" ELSE "-i", "$IN", 0>>, <<IF long TH
 Orders(tl, long) == {Flat(p) : p \in Perms(PairsFor(tl, long))}
 Names == <<"p.tsh", "a.b.tsh", "noext", "my prog.tsh", "sub/dir/q.tsh">>
 Kinds == <<"ok", "lex", "syntax", "type", "conv">>
-Mk(id, argv, name, kind, outState, inKind, outKind) == [id |-> id, argv |-> argv, input |-> name, kind |-> kind, outState |-> outState, inKind |-> inKind, outKind |-> outKind]
+Mk(id, argv, name, kind, outState, inKind, outKind) == [id |-> id, argv |-> argv, input |-> name, kind |-> kind, outState |-> outState, inKind |-> inKind, outKind |-> outKind, pathForm |-> "abs", outName |-> "out"]
 ArgName(a) == JoinS(a, " ")
 OrderCases == UNION {{Mk("C19/order/" \o ArgName(a) \o "/" \o st, a, "p.tsh", "ok", st, "file", "dir") : a \in Orders(TargetLists[i], long)}
                      : i \in 1..Len(TargetLists), long \in {TRUE, FALSE}, st \in {"empty", "older"}}
@@ -43,6 +43,14 @@ ImpCases == {Mk("C19/imp/" \o kd \o "/" \o nm \o "/" \o st \o "/" \o ToString(i)
 \* programs with nothing to execute (only uncalled functions, only comments, only an unused import, no bytes at all, blank lines)
 QuietCases == {Mk("C19/quiet/" \o kd \o "/" \o st \o "/" \o ToString(i), Flat(<<<<"-i", "$IN">>, <<"-o", "$OUT">>>> \o [j \in 1..Len(TargetLists[i]) |-> <<"-t", TargetLists[i][j]>>]), "p.tsh", kd, st, "file", "dir")
                : kd \in {"funcsonly", "comment", "importonly", "empty", "blank"}, st \in {"empty", "older"}, i \in 1..Len(TargetLists)}
+\* the way the two paths are written (round 13: environment): relative, with ./ and a trailing separator, through .., from inside the input's directory;
+\* output directories whose names hold a blank, an extension of the outputs, several dots
+PathForms == {"rel", "dot", "trail", "up", "cwdin"}
+OutNames == {"my out", "out.sh", "o.u.t", "p"}
+PathCases == {[Mk("C19/path/" \o pf \o "/" \o nm \o "/" \o kd \o "/" \o st \o "/" \o ToString(i), Flat(<<<<"-i", "$IN">>, <<"-o", "$OUT">>>> \o [j \in 1..Len(TargetLists[i]) |-> <<"-t", TargetLists[i][j]>>]), nm, kd, st, "file", "dir")
+                EXCEPT !.pathForm = pf] : pf \in PathForms, nm \in {"p.tsh", "sub/dir/q.tsh", "my prog.tsh"}, kd \in {"ok", "type", "okimp"}, st \in {"empty", "older"}, i \in {1, 3}}
+OutNameCases == {[Mk("C19/outname/" \o on \o "/" \o pf \o "/" \o kd \o "/" \o st, <<"-i", "$IN", "-o", "$OUT", "-t", "bash", "-t", "batch">>, "p.tsh", kd, st, "file", "dir")
+                   EXCEPT !.pathForm = pf, !.outName = on] : on \in OutNames, pf \in {"abs", "rel", "dot"}, kd \in {"ok", "type"}, st \in {"empty", "older"}}
 BadCases == {Mk("C19/bad/" \o ToString(i) \o "/" \o st, Bad[i], "p.tsh", "ok", st, "file", "dir") : i \in 1..Len(Bad), st \in {"empty", "older"}}
-ASSUME ndJsonSerialize("fam.ndjson", SetToSeq(OrderCases \cup NameCases \cup MoreNameCases \cup BadCases \cup ImpCases \cup QuietCases))
+ASSUME ndJsonSerialize("fam.ndjson", SetToSeq(OrderCases \cup NameCases \cup MoreNameCases \cup BadCases \cup ImpCases \cup QuietCases \cup PathCases \cup OutNameCases))
 =============================================================================
